@@ -98,3 +98,28 @@ fn dec<T: Canon + Bchk + Decode<'static, ()>>(inp: &[u8]) -> (String, Result<(),
     }
     (show_res(r, pos, |x| x.show()), verdict)
 }
+
+// ---- indices above i32::MAX (outside the schema model: derived CborLen does not compile for them, Encode / Decode do) ----
+/// map-encoded, field indices 0 and u32::MAX (4294967295 is also the sentinel index of skipped fields inside the macro)
+#[derive(Encode, Decode, Debug, PartialEq)] #[cbor(map)]
+pub struct BigIdxM { #[n(0)] pub version: u8, #[n(4294967295)] pub extension: Option<u8>, #[n(4294967294)] pub other: Option<u8> }
+#[derive(Encode, Decode, Debug, PartialEq)]
+pub enum BigIdxE { #[n(0)] A, #[n(4294967295)] Z { #[n(0)] x: u8 } }
+
+/// DBIG m <version> <ext|-> <other|->  /  DBIG e <0|1> <x>: "<hex>;<round trip ok?>"
+pub fn dbig(a: &[&str]) -> String {
+    let opt = |s: &str| if s == "-" { None } else { Some(s.parse::<u8>().unwrap()) };
+    let (bytes, ok) = if a[0] == "m" {
+        let v = BigIdxM { version: a[1].parse().unwrap(), extension: opt(a[2]), other: opt(a[3]) };
+        let b = minicbor::to_vec(&v).unwrap();
+        let ok = minicbor::decode::<BigIdxM>(&b).ok().as_ref() == Some(&v);
+        (b, ok)
+    } else {
+        let v = if a[1] == "0" { BigIdxE::A } else { BigIdxE::Z { x: a[2].parse().unwrap() } };
+        let b = minicbor::to_vec(&v).unwrap();
+        let ok = minicbor::decode::<BigIdxE>(&b).ok().as_ref() == Some(&v);
+        (b, ok)
+    };
+    with_oracle(hex_or_dash(&bytes), if ok { Ok(()) } else { Err("the derived decoder does not read the derived encoding back".into()) })
+}
+
